@@ -55,8 +55,13 @@ class Driver:
         return out
 
 
+_LAST_RESULT = None
+
+
 class Result:
     def __init__(self, args):
+        global _LAST_RESULT
+        _LAST_RESULT = self
         self.args = args
         self.t0 = time.time()
         self.property_failures = []
@@ -112,3 +117,24 @@ class Result:
 
 def rng_for(args) -> random.Random:
     return random.Random(args.seed * 7919 + 13)
+
+
+def run(main_fn):
+    """Runs a harness. An exception escaping it is reported as a failure of the property on the input being processed (the
+    library raised, or returned something the oracle could not even compare) instead of aborting the check: what was
+    collected so far is kept. On a correct tree no call made by a harness raises."""
+    import traceback
+
+    try:
+        main_fn()
+    except Exception as ex:  # noqa: BLE001
+        res = _LAST_RESULT
+        if res is None:
+            raise
+        frames = traceback.extract_tb(ex.__traceback__)
+        where = [f"{os.path.basename(f.filename)}:{f.lineno} {f.name}" for f in frames[-6:]]
+        inlib = any("EasyFEA" in f.filename for f in frames)
+        res.fail(f"check aborted by {type(ex).__name__}" + (" raised inside the library" if inlib else ""),
+                 f"{type(ex).__name__}: {str(ex)[:300]}", dict(traceback=where))
+        res.search_note = "the harness was aborted by an exception; failures collected before it are kept"
+        res.write("aborted run: see the failure 'check aborted by ...'")
